@@ -145,6 +145,9 @@ class Hasher(Pickler):
     # additional 'obj' argument in Python 3.14
     def _batch_setitems(self, items, *args):
         # forces order of keys in dict to ensure consistent hash.
+        # (for dict subclasses, `items` is an iterator: it is needed twice
+        # when the keys turn out to be unorderable)
+        items = list(items)
         try:
             # Trying first to compare dict assuming the type of keys is
             # consistent and orderable.
